@@ -46,7 +46,9 @@ def handleC10 : Handler
   | ["opt_str", p, s, m] => do
       let p ← precision? p; let s ← optUnit? s; let m ← optMode? m
       some ((toStringResolve p s m).render ResolvedToString.render)
-  | ["optpub", op, l, s, inc, m] => do
+  | [pubop, op, l, s, inc, m] => do
+      -- `optpubeq`: the same options with degenerate operands; acceptance does not depend on the operands
+      if pubop != "optpub" ∧ pubop != "optpubeq" then none else
       let o ← rawOptions l s inc m
       match pubDiff op with
       | some (g, fl, fs, since) =>
